@@ -245,7 +245,7 @@ class GeneInterval(AbstractFeatureIntervalCollection):
 
     def export_qualifiers(self) -> Dict[Hashable, Set[str]]:
         """Exports qualifiers for GFF3/GenBank export"""
-        qualifiers = self.qualifiers.copy()
+        qualifiers = {key: set(vals) for key, vals in self.qualifiers.items()}
         for key, val in [
             [BioCantorQualifiers.GENE_ID.value, self.gene_id],
             [BioCantorQualifiers.GENE_NAME.value, self.gene_symbol],
